@@ -49,6 +49,13 @@ def gen_case(rng):
                 p['w'] = 0.3                                         # 0.3 vs 3*0.1 = 0.30000000000000004
             else:
                 p['w'] = rng.choice(circgen.FREQS)
+    # distinct frequencies that a RELATIVE comparison would merge (1000 and 1000.005 rad/s: 5 resolutions apart, 5e-6 relative)
+    if rng.random() < 0.15:
+        acs = [c for c in case['components'] if c['kind'] in ('ac_voltage_source', 'ac_current_source')]
+        if len(acs) >= 2:
+            w_big = rng.choice([1000.0, 5000.0, 2000.0])
+            acs[0]['params']['w'] = w_big
+            acs[1]['params']['w'] = w_big + 0.005
     wmax = base * (rng.randint(0, 5) + 0.5)
     if base in (1.0, 0.5, 2.0, 50.0) and rng.random() < 0.4:
         wmax = base * rng.randint(0, 5)          # w_max exactly on a harmonic (k*w0 <= w_max includes it); exact in binary64 for these bases
